@@ -195,6 +195,43 @@ func (v *VerifQueue) HeapIDs() []int {
 	return ids
 }
 
+// ---------------------------------------------------------------------------------------------
+// schedule points inside an expiry pass
+
+var (
+	verifYieldMu sync.Mutex
+	verifYields  = map[interface{}]func(point string, id int){}
+)
+
+// verifYield is called by expireNear / trigger / tick at the points where a client call can fall inside
+// an expiry pass: point "decide" = the worker is about to take the guard to decide about timer id,
+// point "send" = it decided to deliver timer id, released the guard and is about to send on C.
+// The guard is not held at either point, so the callback may call the client methods.
+func verifYield(owner interface{}, point string, id int) {
+	verifYieldMu.Lock()
+	var f = verifYields[owner]
+	verifYieldMu.Unlock()
+	if f != nil {
+		f(point, id)
+	}
+}
+
+func verifOnYield(owner interface{}, f func(point string, id int)) {
+	verifYieldMu.Lock()
+	if f == nil {
+		delete(verifYields, owner)
+	} else {
+		verifYields[owner] = f
+	}
+	verifYieldMu.Unlock()
+}
+
+// OnYield installs (nil: removes) the callback run at the schedule points of this wheel's expiry passes.
+func (v *VerifWheel) OnYield(f func(point string, id int)) { verifOnYield(v.T, f) }
+
+// OnYield installs (nil: removes) the callback run at the schedule points of this queue's ticks.
+func (v *VerifQueue) OnYield(f func(point string, id int)) { verifOnYield(v.Q, f) }
+
 func verifDrain(c chan Runnable) []Runnable {
 	var out []Runnable
 	for {
